@@ -9,7 +9,7 @@ from gen import bound_text, sides, wellformed_bound
 LEVEL = "proof"
 
 
-def run(chk):
+def _run_once(chk):
     chk.rule = ("n in 1..5 parts, 1-3 bounds resolvable on n (single, range, open, negative); `-m B` against the rewritten list without -m; "
                 "modes -f (general path; multi-byte delimiters too), --json, -l, with -j / -r R; all-covering lists must fail; non-trivial "
                 "= selects a byte or fails")
@@ -82,3 +82,9 @@ def run(chk):
         st, out = parse_result(a)
         if st != "fail":
             chk.report_oracle("the bounds leave nothing out, yet the run does not fail", {"case": x, "implementation": a})
+
+
+def run(chk):
+    # thorough = several independent rounds of the same generators (the PRNG keeps advancing), so that memory stays bounded
+    for _round in range(1 if chk.tier == "quick" else 6):
+        _run_once(chk)
